@@ -249,6 +249,7 @@ impl<'a> SymbolicCompiler<'a> {
                         ns = ns0.push(*node);
                         lemma_stack_push::<EF>(&cb0, circuit, lv, st0, ns0, id, *node);
                         lemma_cache_insert::<EF>(&cb0, circuit, lv, ca0, key, id);
+                        if !(*node matches XE::Leaf(ExtLeaf::Base(_))) { ax_bcache_extends(&cb0, circuit, lv, bc0); }
                     }''', nth=2)
     cb.before('continue;', '''proof { ns = ns0.push(*node); lemma_stack_push::<EF>(&cb0, circuit, lv, st0, ns0, cached, *node); }''', nth=0)
     cb.before('continue;', '''proof { lemma_arm_neg::<EF>(t0, tasks@, ns0, key, *node); }''', nth=1)
